@@ -17,6 +17,12 @@ ENGINES = [
      'serves_properties': ['C01', 'C02', 'C03', 'C05', 'C06', 'C07', 'C08', 'C09', 'C10', 'C11', 'C12', 'C14', 'C15',
                            'C16', 'C17', 'C18', 'C19', 'C20'],
      'kind_free_text': 'itertools enumeration of small finite sub-domains, sharded by stride over processes'},
+    {'name': 'atheris', 'path': 'vlib/fuzzworker.py',
+     'serves_properties': ['C02'],
+     'kind_free_text': 'atheris 3.x / libFuzzer coverage-guided campaign (branch coverage of mitxgraders + pyparsing) '
+                       'whose byte strings are decoded by Hypothesis fuzz_one_input through the same structured strategy '
+                       'and judged by the same oracle as the random part; thorough tier only (parts of kind fuzz); '
+                       'skipped with a note in the evidence when atheris cannot be imported'},
 ]
 NOTES = ('All checks: ./check CNN quick|thorough ; replay: ./check CNN --replay <path>. Exit 0 = held, 1 = VIOLATION '
          'line(s), 2 = harness error. VERIF_SEED / VERIF_JOBS / VERIF_REPO / VERIF_OUT honoured. '
@@ -222,13 +228,17 @@ CHECKS = {
     'C02': {
         'text': 'Hypothesis-generated grader specs (debug off) fed with out-of-domain formulas, mutated strings '
                 '(hostile tokens, up to 400-deep brackets, wrong arities, stray delimiters, non-ASCII digits/operators/'
-                'whitespace), raw unicode and non-text / wrongly nested objects; 41 anchor problems and families of '
-                'formulas broken in a known way. Oracle: result or MITxError only; debug=True twin differential for class '
+                'whitespace), raw unicode and non-text / wrongly nested objects; 41 anchor problems, families of '
+                'formulas broken in a known way, and generated undefined names over every documented name shape (judged '
+                'against the configuration); thorough tier adds a coverage-guided atheris/libFuzzer campaign over the '
+                'same strategy and oracle. Oracle: result or MITxError only; debug=True twin differential for class '
                 'and <br/>-rendered message of anticipated problems vs. the generic "Could not check input(s)" error '
                 'naming the submission; ConfigError for non-text; 30 s watchdog plus elapsed-time check.',
         'note': 'The differential is one-directional (speaks about debug off); SumGrader limits bounded to |n| <= 2000; '
-                'the optional atheris amplifier was not built - thorough runs Hypothesis only.',
-        'technique': 'property-based testing / fuzzing with Hypothesis (structured string mutators); differential '
-                     'against a debug twin; exception-family classification',
+                'the atheris campaign (thorough only) is approximately reproducible from its seed - the saved failing '
+                'spec is the reproducible unit; it is skipped (noted in evidence) if atheris cannot be imported.',
+        'technique': 'property-based testing / fuzzing: Hypothesis (structured string mutators) + coverage-guided '
+                     'fuzzing (atheris/libFuzzer through Hypothesis fuzz_one_input, thorough tier); differential '
+                     'against a debug twin; exception-family classification against the configuration',
     },
 }
